@@ -54,6 +54,9 @@ extern void EGLPNUM_TYPENAME_ILLwrite_lp_state_init (
 extern void EGLPNUM_TYPENAME_ILLwrite_lp_state_append (
 	EGLPNUM_TYPENAME_ILLwrite_lp_state * line,
 	const char *str);
+/* number of pieces of text that did not fit into a line since the last reset */
+extern int EGLPNUM_TYPENAME_ILLwrite_lp_state_lost (
+	int reset);
 extern void EGLPNUM_TYPENAME_ILLwrite_lp_state_append_coef (
 	EGLPNUM_TYPENAME_ILLwrite_lp_state * line,
 	EGLPNUM_TYPE v,
